@@ -54,7 +54,8 @@ func (m *storageManager) getRaw(key string) []byte {
 // set data to storage or memory
 func (m *storageManager) setRaw(key string, raw []byte, exp time.Duration) {
 	if m.storage != nil {
-		_ = m.storage.Set(key, raw, exp) //nolint:errcheck // TODO: Do not ignore error
+		// copy the key here too: it may be a view of the request buffers, and map-based storages keep the string they are given
+		_ = m.storage.Set(utils.CopyString(key), raw, exp) //nolint:errcheck // TODO: Do not ignore error
 	} else {
 		// the key is crucial in crsf and sometimes a reference to another value which can be reused later(pool/unsafe values concept), so a copy is made here
 		m.memory.Set(utils.CopyString(key), raw, exp)
